@@ -99,8 +99,8 @@ func lensFor(u int, full bool) []int {
 				set[x+d] = true
 				set[m+d] = true
 				for j := 1; j <= 3; j++ {
-					set[m+j*(u-4)+d] = true       // K == M
-					set[x+j*(u-4)+d] = true       // K == X
+					set[m+j*(u-4)+d] = true // K == M
+					set[x+j*(u-4)+d] = true // K == X
 					set[x+j*(u-4)-(u-4)+d+1] = true
 					set[j*(u-4)+d] = true
 					set[j*u+d] = true
@@ -125,7 +125,7 @@ func TestC14PayloadLens(t *testing.T) {
 	vt.Exec(t, vt.Check[lensSpec]{
 		ID: "C14", Test: "TestC14PayloadLens",
 		Setup: setup, Teardown: teardown,
-		Run:   runLens,
+		Run: runLens,
 	})
 }
 
